@@ -11,6 +11,7 @@ import SugarModel.Driver.AclLines
 import SugarModel.Driver.PersistLines
 import SugarModel.Driver.SchedLines
 import SugarModel.Driver.PubSubLines
+import SugarModel.Driver.EvictLines
 open Sugar Sugar.Driver
 
 def showVal (v : Val) : String := reprStr v
@@ -257,6 +258,9 @@ partial def loop (h : IO.FS.Stream) (out : IO.FS.Stream) : IO Unit := do
     loop h out
   else if line.startsWith "W " then
     out.putStrLn (wVerdict ((line.splitOn " ").filter (· ≠ "")))
+    loop h out
+  else if line.startsWith "V " then
+    out.putStrLn (evVerdict ((line.splitOn " ").filter (· ≠ "")))
     loop h out
   else if line.startsWith "A " then
     out.putStrLn (aVerdict ((line.splitOn " ").filter (· ≠ "")))
